@@ -1,5 +1,6 @@
 """C04 - .p8.png write/read round trip preserves cart and label picture; no truncated writes."""
 import os
+import struct
 import tempfile
 
 from hypothesis import strategies as st
@@ -77,6 +78,39 @@ def label_rows_for(seed):
     return [pix[y * 640:(y + 1) * 640] for y in range(205)]
 
 
+ANCILLARY = (
+    (b'pHYs', struct.pack('>IIB', 2835, 2835, 1)), (b'gAMA', struct.pack('>I', 45455)),
+    (b'tEXt', b'Software\x00paint'), (b'bKGD', struct.pack('>HHH', 1, 2, 3)),
+    (b'tIME', struct.pack('>HBBBBB', 2020, 1, 2, 3, 4, 5)), (b'sBIT', b'\x08\x08\x08\x08'),
+    (b'sRGB', b'\x00'), (b'iTXt', b'Comment\x00\x00\x00\x00\x00label'), (b'prIv', b'editor private data'))
+
+
+def dest_flavour(dest_seed):
+    """How the existing destination was saved: picotool's own output is a plain non-interlaced PNG, but the label
+    picture may come from an image editor ("or appropriately spec'd .png file", says the writer's docstring):
+    same size, RGBA, 8 bits - but interlaced, filtered, with several IDAT chunks or ancillary chunks."""
+    if len(dest_seed) < 8:
+        return {}, 'plain'
+    f = dest_seed[4:8]
+    kw, names = {}, []
+    if f[0] % 3 == 0:
+        kw['interlace'] = True
+        names.append('interlaced')
+    if f[1] % 3 == 0:
+        kw['filters'] = [(1,), (2,), (3,), (4,), (0, 1, 2, 3, 4)][f[1] // 3 % 5]
+        names.append('filtered')
+    if f[2] % 4 == 0:
+        kw['idat_split'] = 4096 + 97 * (f[2] // 4)
+        names.append('split_idat')
+    if f[3] % 2 == 0:
+        k = f[3] // 2
+        kw['ancillary'] = [ANCILLARY[(k + i * 4) % len(ANCILLARY)] for i in range(1 + k % 3)]
+        kw['ancillary'] = list(dict((t, b) for t, b in kw['ancillary']).items())
+        names.append('ancillary')
+        names.extend('chunk_' + t.decode() for t, _b in kw['ancillary'])
+    return kw, '+'.join(names) or 'plain'
+
+
 _empty_rows = None
 
 
@@ -108,11 +142,13 @@ def check_write(mem, version, code, dest_seed, case):
     with tempfile.TemporaryDirectory(prefix='c04_') as td:
         path = os.path.join(td, 'cart.p8.png')
         if dest_seed is not None:
-            rows0 = label_rows_for(dest_seed)
-            before = refpng.encode(160, 205, rows0)
+            rows0 = label_rows_for(dest_seed[:4])
+            kw, fl = dest_flavour(dest_seed)
+            before = refpng.encode(160, 205, rows0, **kw)
             with open(path, 'wb') as fh:
                 fh.write(before)
             labs.append('dest_exists')
+            labs.extend('dest_' + n for n in fl.split('+'))
         else:
             rows0 = empty_label_rows()
             before = None
@@ -234,7 +270,7 @@ def gen_small(seed):
         if ch.chance(100):
             rows = [rows[0]] * nrows            # identical rows: the farthest match wins ties
         code, ck = b't={\n' + b''.join(rows) + b'}\n', 'table_rows'
-    dest = ch.take(4) if ch.chance(128) else None
+    dest = ch.take(4 if ch.chance(100) else 8) if ch.chance(128) else None
     return mem, modes, version, code, ck, dest
 
 
@@ -362,7 +398,7 @@ def part_boundary(ctx):
                            {'boundary': label, 'code_len': len(code), 'version': ver, 'labels': labs},
                            labs + ['boundary', 'boundary_' + which, 'boundary_' + label])
     ctx.hyp('boundary', st.tuples(st.binary(min_size=3, max_size=3),
-                                  st.one_of(st.none(), st.binary(min_size=4, max_size=4)),
+                                  st.one_of(st.none(), st.binary(min_size=4, max_size=4), st.binary(min_size=8, max_size=8)),
                                   st.sampled_from([8, 8, 33, 1, 0])), body,
             max_examples=1 if ctx.quick else 4)
 
@@ -440,7 +476,7 @@ def replay(case):
 def vacuity(total, tier):
     msgs = []
     for lab in ('stored_raw', 'stored_compressed', 'refused', 'boundary_raw', 'boundary_compressed', 'boundary_header_edge',
-                'dest_exists', 'dest_absent', 'convert', 'code_update60', 'code_table_rows', 'written_twice'):
+                'dest_exists', 'dest_absent', 'dest_plain', 'dest_interlaced', 'dest_ancillary', 'dest_chunk_pHYs', 'convert', 'code_update60', 'code_table_rows', 'written_twice'):
         if total.classes.get(lab, 0) < 1:
             msgs.append('class %s never seen' % lab)
     return msgs
